@@ -215,21 +215,34 @@ func tourEvent(ev M, conc map[string][]byte, commits []string, contents map[stri
 // tourJobs builds the jobs that replay the state graph of MC_<name>: the first-level subtrees are spread over jobs.
 func tourJobs(cx *CheckCtx, name string, obs ObsSpec, maxEdges int) []Job {
 	dir := filepath.Join(cx.Scratch, "mc_"+name)
-	ms, err := runModelCheck(filepath.Join(dir, "check"), name, 16, 30*time.Minute)
-	if err != nil {
-		cx.InfraErr = append(cx.InfraErr, err.Error())
-		return nil
-	}
-	cx.Models = append(cx.Models, ms)
+	var ms ModelStats
+	var merr error
+	mdone := make(chan struct{})
+	go func() {
+		ms, merr = runModelCheck(filepath.Join(dir, "check"), name, 8, 30*time.Minute)
+		close(mdone)
+	}()
 	root, nEdges, err := emitEdges(filepath.Join(dir, "emit"), name, 1, 30*time.Minute)
+	<-mdone
 	os.RemoveAll(dir)
+	cx.mu.Lock()
+	if merr != nil {
+		cx.InfraErr = append(cx.InfraErr, merr.Error())
+	} else {
+		cx.Models = append(cx.Models, ms)
+	}
 	if err != nil {
 		cx.InfraErr = append(cx.InfraErr, err.Error())
+	}
+	cx.mu.Unlock()
+	if merr != nil || err != nil {
 		return nil
 	}
 	cs := &confStats{Disagree: map[string]int{}}
+	cx.mu.Lock()
 	cx.Extra["model_conformance_"+name] = cs
 	cx.Extra["tour_edges_"+name] = nEdges
+	cx.mu.Unlock()
 	// concretise the model's content tokens
 	rng := rand.New(rand.NewSource(cx.Seed*31 + 7))
 	conc := map[string][]byte{}
